@@ -29,6 +29,17 @@ type buffer struct {
 	data []byte
 }
 
+// working copy handed to the reader: a prefix of a LARGER array whose tail holds sentinel octets
+// (a receive buffer sliced to the datagram length: cap > len), so that reading past len is observable
+func workCopy(data []byte) []byte {
+	big := make([]byte, len(data)+16)
+	copy(big, data)
+	for i := len(data); i < len(big); i++ {
+		big[i] = 0xEE
+	}
+	return big[:len(data)]
+}
+
 func mkBuffers() []buffer {
 	var bs []buffer
 	for L := 0; L <= 9; L++ {
@@ -155,6 +166,9 @@ func step(r *reader.Reader, m *ref, work, pristine []byte, o op) (string, string
 	}
 	if !want.err {
 		if want.isB {
+			if len(got.bytes) != len(want.bytes) {
+				return "reader:" + o.kind + ":length", fmt.Sprintf("pos=%d op=%v: %d octets returned, %d asked for", pos0, o, len(got.bytes), len(want.bytes))
+			}
 			if !bytes.Equal(got.bytes, want.bytes) {
 				return "reader:" + o.kind + ":value", fmt.Sprintf("pos=%d op=%v: got % x want % x", pos0, o, got.bytes, want.bytes)
 			}
@@ -213,7 +227,7 @@ func bfsSpace(tier string) mck.Space {
 			for _, pos := range frontier {
 				path := seen[pos].path
 				for _, o := range ops {
-					work := append([]byte{}, b.data...)
+					work := workCopy(b.data)
 					r := reader.NewReader(work)
 					m := &ref{buf: b.data}
 					for _, po := range path { // replay (already checked when first taken)
@@ -275,7 +289,7 @@ func seqSpace(tier string) mck.Space {
 		var n, consumed uint64
 		var rec func(d int)
 		run := func() {
-			work := append([]byte{}, b.data...)
+			work := workCopy(b.data)
 			r := reader.NewReader(work)
 			m := &ref{buf: b.data}
 			for k := 0; k < D; k++ {
